@@ -180,7 +180,7 @@ def sdecRecord : Nat → Env → Nat → SDec
       | (.fuel, s') => (.fuel, s')
     | some (.msg fds) =>
       let (bodyLen, s1) := sreadU32 s
-      let s2 := { s1 with limits := bodyLen :: s1.limits }
+      let s2 := { s1 with limits := (bodyLen + Facts.msgLimitExtra) :: s1.limits }
       sdecMsgLoop (sdec f env) fds (s2.avail + 2) s2 []
     | some (.union brs) =>
       let (bodyLen, s1) := sreadU32 s
